@@ -28,6 +28,8 @@ func runStream(name string, args []string) {
 		streamQc(o)
 	case "rb":
 		streamRb(o)
+	case "nl":
+		streamNl(o)
 	case "reg":
 		streamReg(o)
 	case "cb":
